@@ -50,6 +50,7 @@ type ssJob struct {
 	QCap      int          `json:"qcap"`
 	Schedules []ssSchedule `json:"schedules"`
 	Known     []string     `json:"known"` // listed known-finding slugs
+	Staged    bool         `json:"staged"`
 	Random    struct {
 		N       int   `json:"n"`
 		Seed    int64 `json:"seed"`
@@ -85,6 +86,7 @@ type ssResult struct {
 	Samples     []string       `json:"samples"`
 	Skipped     int            `json:"skipped_steps"`
 	DriftFirst  []ssStep       `json:"drift_first_steps"`
+	Staged      []string       `json:"staged"`
 }
 
 type ssStream struct {
@@ -546,7 +548,7 @@ func (w *ssWorld) do(st ssStep) bool {
 		from.chunks = from.chunks[1:]
 		from.mu.Unlock()
 		if !to.IsClosed() {
-			consumed, err := to.handleEvents(ch)
+			consumed, err := w.pair.feed(to, ch)
 			if err != nil || consumed != len(ch) {
 				w.fail("C07", "event", fmt.Sprintf("handleEvents consumed %d of %d: %v", consumed, len(ch), err))
 			}
@@ -855,6 +857,9 @@ func TestVS_Session(t *testing.T) {
 			return
 		}
 	}
+	if job.Staged && len(res.Violations) == 0 {
+		ssStaged(t, job.QCap, res)
+	}
 	// seeded random histories: any applicable action, more streams, no spec expectation (oracles only)
 	rng := rand.New(rand.NewSource(job.Random.Seed))
 	acts := []string{"Open", "FlushPut", "FlushPut", "WCas", "WSend", "Close", "Deliver", "Deliver", "Read", "ReadEnd", "Exhaust"}
@@ -945,4 +950,92 @@ func runRandom(pair *vpPair, job *ssJob, res *ssResult, steps []ssStep) {
 		res.Samples = append(res.Samples, sb.String())
 	}
 	w.closeWorld()
+}
+
+
+// ssStaged: error exits of Flush that need a second party to act WHILE Flush waits in its queue-full retry loop (real
+// goroutines, real timers): every one of them must give the message's buffer back (C09) and return (C11).
+func ssStaged(t *testing.T, qcap int, res *ssResult) {
+	type scen struct {
+		name string
+		act  func(p *vpPair, sA, sB *Stream)
+		want error
+	}
+	scens := []scen{
+		{"flush-retry/peer-close", func(p *vpPair, sA, sB *Stream) {
+			sB.Close()
+			time.Sleep(25 * time.Millisecond)
+			p.deliver(p.A) // the peer's close reaches the stream whose Flush is waiting
+		}, ErrStreamClosed},
+		{"flush-retry/write-deadline", nil, ErrTimeout},
+		{"flush-retry/queue-stays-full", func(p *vpPair, sA, sB *Stream) {}, ErrQueueFull},
+	}
+	for _, sc := range scens {
+		pair, err := vpNewPair(vpConfig{Sizes: []uint32{4}, Percents: []uint32{100}, MemSize: 2048, QueueCap: uint32(qcap)})
+		if err != nil {
+			t.Fatal(err)
+		}
+		func() {
+			defer pair.destroy()
+			vsReset(vsOff)
+			pair.newStreamsB = nil
+			sA, _ := pair.A.OpenStream()
+			sA.BufferWriter().WriteBytes([]byte{1, 2, 3})
+			sA.Flush(false)
+			pair.settle()
+			if len(pair.newStreamsB) == 0 {
+				res.Staged = append(res.Staged, sc.name+": setup failed")
+				return
+			}
+			sB := pair.newStreamsB[0]
+			if b, err := sB.BufferReader().ReadBytes(3); err == nil && len(b) == 3 {
+				sB.BufferReader().ReleasePreviousRead()
+			}
+			// fill A's queue: the peer does not drain
+			for i := 0; i < qcap; i++ {
+				sA.BufferWriter().WriteBytes([]byte{1, 2, byte(10 + i)})
+				if err := sA.Flush(false); err != nil {
+					res.Staged = append(res.Staged, fmt.Sprintf("%s: fill %d: %v", sc.name, i, err))
+					return
+				}
+			}
+			if sc.want == ErrTimeout {
+				sA.SetWriteDeadline(time.Now().Add(30 * time.Millisecond))
+			}
+			done := make(chan error, 1)
+			go func() {
+				sA.BufferWriter().WriteBytes([]byte{1, 2, 99})
+				done <- sA.Flush(false)
+			}()
+			time.Sleep(15 * time.Millisecond) // Flush is now inside its retry loop (queue full)
+			if sc.act != nil {
+				sc.act(pair, sA, sB)
+			}
+			var ferr error
+			select {
+			case ferr = <-done:
+			case <-time.After(10 * time.Second):
+				res.Violations = append(res.Violations, ssViolation{Property: "C11", Kind: "flush-hangs", Detail: sc.name + ": Flush did not return within 10 s", Schedule: "staged " + sc.name, QCap: qcap, NStreams: 1})
+				return
+			}
+			if ferr != sc.want {
+				// not a property of C09: the error class may legitimately differ under timing; record only
+				res.Staged = append(res.Staged, fmt.Sprintf("%s: Flush returned %v (staging expected %v)", sc.name, ferr, sc.want))
+			}
+			// finish: everything delivered, both ends closed, then the ledger must be empty
+			sA.SetWriteDeadline(time.Time{})
+			pair.settle()
+			sA.Close()
+			sB.Close()
+			for _, ns := range pair.newStreamsB {
+				ns.Close()
+			}
+			pair.settle()
+			if used := pair.inUse(pair.A); used != 0 {
+				res.Violations = append(res.Violations, ssViolation{Property: "C09", Kind: "leak", Detail: fmt.Sprintf("%s: Flush returned %v while waiting in its queue-full retry loop; after both ends closed and the session settled %d buffer(s) are still allocated", sc.name, ferr, used), Schedule: "staged " + sc.name, QCap: qcap, NStreams: 1})
+				return
+			}
+			res.Staged = append(res.Staged, fmt.Sprintf("%s: Flush returned %v, all buffers back", sc.name, ferr))
+		}()
+	}
 }
